@@ -89,6 +89,11 @@ package file
 //@   ensures [seals-the-private-key] sl ==> s.privateKey != nil && sl.arg3val == skraw(s.privateKey.val)
 //@   ensures [salted] sl ==> len(ar.arg1) == 16
 //@   ensures [written-only-if-sealed] err == nil ==> sl
+// success means the key file now holds exactly the document that was just built: it is replaced as a whole
+// (os.WriteFile truncates), once - a file that keeps bytes of an older, longer document cannot be loaded again
+//@   observe wf := call WriteFile
+//@   observe jm := call Marshal
+//@   ensures [file-is-the-document] err == nil ==> wf && wf.count == 1 && wf.res0 == nil && jm && jm.count == 1 && wf.arg1 == jm.res0 && wf.arg0 == s.keyFile
 //@   ensures [zeroed-on-success] err == nil ==> forall k :: 0 <= k && k < len(passphrase) ==> passphrase[k] == 0
 
 //@ func LoadFileSystemSigner(keyPath, passphrase) (sg, err)
@@ -121,4 +126,7 @@ package file
 // legacy file and opened with another key derivation
 //@   ensures [salted] sl ==> len(ar.arg1) == 16
 //@   ensures [written-only-if-sealed] err == nil ==> sl
+//@   observe wf := call WriteFile
+//@   observe jm := call Marshal
+//@   ensures [file-is-the-document] err == nil ==> wf && wf.count == 1 && wf.res0 == nil && jm && jm.count == 1 && wf.arg1 == jm.res0
 //@   ensures [zeroed] forall k :: 0 <= k && k < len(passphrase) ==> passphrase[k] == 0
